@@ -55,7 +55,7 @@ PROPS = {
                     "the declared type) and by the conversion theorems of C11, not by the heap model"],
     },
     "C16": {
-        "gens": [],
+        "gens": ["ChanOps"],
         "lean": "Anko.Props.C16",
         "streams": [{"name": "chan", "n_quick": 400, "n_thorough": 6000}],
         "trusted": ["Go's channel implementation and scheduler realise the FIFO-buffer specification of lean/Anko/Model/Chan.lean (capacity, closed flag, rendezvous for capacity 0)",
@@ -89,7 +89,7 @@ PROPS = {
                     "the lock-region extractor tools/cmd/extract/envlocks.go (statement-order walk of env/*.go; unknown statement shapes are extraction errors)",
                     "Go race detector and scheduler for the stress part"],
         "assumptions": ["operations are region-atomic: their effect on a scope's tables happens inside one locked region (fact 1 + mutual exclusion); "
-                        "SetValue/GetValue walking to a READ-ONLY parent and DeleteGlobal (check region + delete region) are multi-region: covered by the oracle only",
+                        "SetValue/GetValue/DeleteGlobal walking up to a parent are one region per scope visited: the cross-scope composite is covered by the oracle only (after fix fc8a412 DeleteGlobal checks and deletes in one region)",
                         "memory-model level behaviour is the race detector's domain"],
         "partial": ["sequential-consistency theorem is stated at region-atomic granularity; the schedule-by-schedule correspondence with the real code under a controlled "
                     "scheduler (go build -overlay) is not built - real concurrent runs are checked against all sequential orders instead"],
